@@ -29,6 +29,12 @@ VARIANTS = {
     "slow-um": {"slow_um": True},
     # accounts with one connection each: the place in the account is one more thing a session holds
     "limited": {"limited": True},
+    # a kernel that takes only a few bytes of what the server writes (the rest of a finished download sits in the
+    # transport's own buffer) and a data peer that has stopped reading but stays connected
+    "tail": {"sndbuf": 4, "window": 4096},
+    # the data connection comes from another address than the control connection (a peer with two addresses, or a
+    # third party the client has a transfer sent to)
+    "other-address": {"data_other": True},
     # the control connection comes in over IPv6 (PASV is refused there, EPSV served)
     "ipv6": {"host": "::1"},
 }
@@ -37,9 +43,15 @@ VARIANT_SCRIPTS = {
     "slow-um": ["login-only", "pwd", "retr", "retr-then-quit", "relogin"],
     "ipv6": ["pasv-twice", "pasv-no-transfer", "list", "retr"],
     "limited": ["login-only", "relogin", "user-only", "bad-pass", "user-then-other", "retr"],
+    "other-address": ["retr", "stor", "list", "pasv-twice", "retr-then-quit"],
+    "tail": ["retr-dstop", "list-dstop", "mlsd-dstop", "retr-dstop-quit"],
 }
 # scripts of the variants only
 EXTRA_SCRIPTS = {
+    "retr-dstop": ["EPSV", "@data", "@dstop", "RETR d/f", "PWD"],
+    "list-dstop": ["PASV", "@data", "@dstop", "LIST", "PWD"],
+    "mlsd-dstop": ["EPSV", "@data", "@dstop", "MLSD d", "PWD"],
+    "retr-dstop-quit": ["EPSV", "@data", "@dstop", "RETR d/f", "QUIT"],
     "user-only": ["USER bob"],
     "bad-pass": ["USER bob", "PASS bad", "USER bob"],
     "user-then-other": ["USER bob", "PASS pw", "USER carol", "USER anonymous"],
@@ -65,14 +77,18 @@ def run_cut(case, chooser):
     n = 2 if case.get("second") else 1
     spy = backends.SpyControl()
     variant = VARIANTS[case.get("variant", "plain")]
+    if variant.get("data_other"):
+        script = ["@data-other" if e == "@data" else e for e in script]
     skw = dict(corpus.SERVER_KW)
     skw.update(variant.get("server_kwargs", {}))
-    rig = Rig(chooser=chooser, n_sessions=n, tree=corpus.TREE, window=case.get("window", 1), spy=spy,
+    rig = Rig(chooser=chooser, n_sessions=n, tree=corpus.TREE, window=variant.get("window", case.get("window", 1)), spy=spy,
               server_kwargs=skw, users=_slow_users if variant.get("slow_um") else _limited_users if variant.get("limited") else None,
               via_run=case["cut"] == "cancel-run", host=variant.get("host", "127.0.0.1"), **BACKENDS[case["backend"]])
     problems = []
     try:
         w = rig.world
+        if variant.get("sndbuf") is not None:
+            w.net.sndbuf = variant["sndbuf"]
         explore_all = case.get("explore_all", False)
         chooser.active = False
         for i in range(n):
@@ -346,7 +362,7 @@ def build_items(tier):
         for script in vscripts:
             nev = count_events(script, "memory", False, variant)
             for k in range(0, nev + 1):
-                for cut in ("fin", "rst"):
+                for cut in (("fin", "rst") if variant != "tail" else ("ctl-fin", "fin")):
                     case = {"script": script, "backend": "memory", "cut": cut, "k": k, "second": False,
                             "variant": variant, "explore_all": tier != "quick"}
                     items.append((case, bound, kinds, 3000 if tier == "quick" else 20000))
